@@ -370,6 +370,9 @@ func checkC07(w *World, r *Report) {
 		}
 		return false
 	})
+	r.rule("C07.no-reentry", "no function of lib/concurrent acquires a mutex it already holds, or calls with the lock held a function that acquires the mutex of the same object: sync.RWMutex is not re-entrant even for readers, so once a writer queues between the two acquisitions the evaluation waits in a mutex for ever, where no context is looked at")
+	nre7 := reentryRule(w, r, e, "C07.no-reentry", w.pkgFuncs("lib/concurrent"))
+	r.floor("C07.no-reentry", "calls and acquisitions made with a lock held in lib/concurrent", nre7, 1)
 	readerEnvRule(w, r, "C07.reader-env")
 	tryShareRule(w, r, e, "C07.try-share")
 	// a lock that some path leaves held is waited for, from then on, by every operation on that object, and no
